@@ -84,7 +84,9 @@ def cmd_import(src, prop, name):
         os.makedirs(dst, exist_ok=True)
         shutil.copy(patch, os.path.join(dst, "patch.diff"))
         shutil.copy(demo_src, os.path.join(dst, os.path.basename(demo_rel)))
-        meta.update({"property": prop, "origin": "written by an independent sub-agent given only the property text and a scratch worktree", "verified": log, "detection": det})
+        meta.update({"round": os.environ.get("SEED_ROUND", "round 1"), "base": sh(["git", "-C", REPO, "rev-parse", "--short", "HEAD"])[1].strip(), "property": prop, "origin": "written by an independent sub-agent given only the property text and a scratch worktree", "verified": log, "detection": det})
+        json.dump(meta, open(os.path.join(dst, "meta.json"), "w"), indent=1)
+        meta["first_contact"] = "own" if det["caught_by_own_check"] else (("other (%s)" % ",".join(sorted(det["other_checks_firing"]))) if det["other_checks_firing"] else "missed") + ("; own undecided" if det["own_property"]["exit"] == 2 else "")
         json.dump(meta, open(os.path.join(dst, "meta.json"), "w"), indent=1)
         verdict = "CAUGHT" if det["caught_by_own_check"] else ("caught-by-other:" + ",".join(det["other_checks_firing"]) if det["other_checks_firing"] else "MISSED")
         print("KEPT %s-%s  %s  own=%s" % (prop, name, verdict, det["own_property"]))
